@@ -54,7 +54,38 @@ def oracle(ctx, text, want):
         ctx.fail('get_type() does not name the leading DML/DDL keyword', text, observed=got, required=want)
 
 
+def all_dictionary_words():
+    from sqlparse import keywords as K
+    ws = set()
+    for name in dir(K):
+        v = getattr(K, name)
+        if name.startswith('KEYWORDS') and isinstance(v, dict):
+            ws.update(v)
+    return sorted(w for w in ws if w.replace('_', '').isalnum())
+
+
+def continuation_sweep(ctx):
+    """'The answer ignores … everything after the leading keyword': every leading DML/DDL keyword followed by EVERY dictionary word, and by
+    OR/IF/NOT/TEMP/UNIQUE + every dictionary word (a lexer rule that joins the leading keyword with a following phrase would change the
+    answer).  The only phrase the property lets through is CREATE OR REPLACE."""
+    rng = ctx.rng
+    words = all_dictionary_words()
+    if ctx.quick():
+        words = [w for w in words if rng.random() < 0.35] + ['ALTER', 'REPLACE', 'OR', 'IF', 'NOT', 'EXISTS', 'TABLE', 'VIEW', 'TEMPORARY', 'UNIQUE']
+    leads = ['SELECT', 'INSERT', 'UPDATE', 'DELETE', 'CREATE', 'DROP', 'ALTER', 'MERGE', 'REPLACE', 'TRUNCATE', 'UPSERT']
+    seconds = ['OR', 'IF', 'NOT', 'TEMP', 'UNIQUE', 'GLOBAL']
+    for k in leads:
+        case = lambda s: ''.join(ch.upper() if rng.random() < 0.5 else ch.lower() for ch in s)
+        for w in words:
+            oracle(ctx, '%s %s x' % (case(k), case(w)), k)
+        for s2 in (seconds if not ctx.quick() else [rng.choice(seconds), 'OR']):
+            for w in words:
+                want = 'CREATE OR REPLACE' if (k, s2, w) == ('CREATE', 'OR', 'REPLACE') else k
+                oracle(ctx, '%s %s %s x' % (case(k), case(s2), case(w)), want)
+
+
 def run(ctx):
+    continuation_sweep(ctx)
     texts = []
     for text, want in cases(ctx):
         oracle(ctx, text, want)
